@@ -185,7 +185,9 @@ CLAIMED.update({
         text='Lean 4 file-tree model of both upgrade routes sharing one plan; theorems for any tree: moving data files deepest '
              'first files every one under its type with ITS OWN content (no file lands on a file still to be moved — the D20 '
              'defect, whose shallow-first counterexample is a theorem), in-place = copy on every destination, other files '
-             'untouched, the sort used is deepest-first and a permutation, tables keep every line after the version line, both '
+             'untouched, the sort used is deepest-first and a permutation, tables keep every line after the version line (so any '
+             'comment-dropping reader sees the same rows), observations are regrouped so that a point index holds exactly the '
+             '(image, feature) tokens of its own rows in file order and every output row carries the keypoints type, both '
              'routes succeed together. Tied by tree-for-tree correspondence of the real in-place, copy (each strategy) and '
              'automatic routes on harness-written 1.0 directories, and by loading the results.',
         note=COMMON_NOTE + 'shutil.move/copy are modelled as erase+set / set; records_data transfer is outside (C09 helpers); '
